@@ -66,6 +66,11 @@ ASSERT_ONLY = [
 SETUP_ONLY = [
     ('setup-copy-missing', ['copy no-such-home-file'], ('VALIDATION_ERROR',)),
     ('setup-stdin-missing', ['stdin = -contents-of -rel-home no-such-file'], ('VALIDATION_ERROR',)),
+    # the result directory is not a legal relativity of a file to read BEFORE the act phase (it is afterwards)
+    ('setup-src-rel-result-option', ['copy -rel-result stdout x-copy'], ('SYNTAX_ERROR',)),
+    ('setup-src-rel-result-symbol', ['def path RR = -rel-result stdout', 'copy @[RR]@ x-copy2'], ('VALIDATION_ERROR',)),
+    ('setup-src-rel-result-symbol-rel', ['def path RR2 = -rel-result .', 'file g2.txt = -contents-of -rel RR2 stdout'], ('VALIDATION_ERROR',)),
+    ('setup-stdin-rel-result-symbol', ['def path RR3 = -rel-result .', 'def path RR4 = @[RR3]@/stdout', 'stdin = -contents-of @[RR4]@'], ('VALIDATION_ERROR',)),
 ]
 CONF_DEFECTS = [
     ('conf-bad-status', ['status = NOSUCH'], ('SYNTAX_ERROR',)),
